@@ -301,3 +301,84 @@ print(json.dumps({"helper": [float(v) for v in got], "with_cx_donor": [float(v) 
     out = run_native(ctx, code)
     return {'confirmed': bool(out) and out.get('equal') is False, 'input': '%s(helium, n_e=1e19, t_e=10, CX donor hydrogen 5e18 with supplied coefficient lists)' % fn,
             'observed': out, 'expected': 'abundances of the balance with the CX terms'}
+
+
+def bounded_entry_points(ctx):
+    """Bounded stand-in (NOT a proof) for the numpy-polymorphic normalisation layer: the public entry points must agree across input kinds
+    (scalar / ndarray / Function1D), fractions lie in [0, 1] and sum to one, densities = fractions x element density, and neutrality
+    matching returns densities whose charge plus the charge of the GIVEN species equals n_e - whatever the key insertion order of the
+    {charge: density} dictionaries of the given species."""
+    from replaylib.native import run_native
+    n = 4 if ctx['tier'] == 'quick' else 30
+    code = '''
+import random, numpy as np
+from raysect.core.math.function.float import Interpolator1DArray
+from cherab.core import AtomicData
+from cherab.core.atomic import hydrogen, helium, carbon
+from cherab.tools.plasmas.ionisation_balance import fractional_abundance, from_elementdensity, match_plasma_neutrality
+class R:
+    def __init__(self, a, th): self.a, self.th = a, th
+    def __call__(self, n_e, t_e): return self.a * np.exp(-self.th / t_e) * (1 + 1e-21 * n_e)
+class Data(AtomicData):
+    def __init__(self, k): self.k = k
+    def ionisation_rate(self, ion, charge): return R(1e-14 * self.k / (charge + 1), 13.6 * (charge + 1) ** 2 / ion.atomic_number ** 0.5)
+    def recombination_rate(self, ion, charge): return R(2e-19 * charge ** 2 / self.k, -5.0 * charge)
+    def thermal_cx_rate(self, donor, donor_charge, receiver, charge): return R(1e-15 * charge, 1.0)
+rnd = random.Random(%d)
+bad = []; cases = 0
+def electrons(sp): return sum(q * np.asarray(v, dtype=float) for q, v in sp.items())
+for trial in range(%d):
+    data = Data(rnd.uniform(0.5, 2.0))
+    x = np.linspace(0, 1, 5)
+    ne = 5e19 * (1 - 0.8 * x ** 2) * rnd.uniform(0.5, 2); te = 400.0 * (1 - x ** 2) ** 2 + rnd.uniform(3, 30)
+    donor = 1e16 * np.exp(4 * (x - 1))
+    for kw_s, kw_a in (({}, {}), ({"tcx_donor": hydrogen, "tcx_donor_n": None}, None)):
+        # fractional abundance: array input vs point-by-point scalar input vs Function1D input
+        if kw_s:
+            arr = fractional_abundance(data, carbon, ne, te, tcx_donor=hydrogen, tcx_donor_n=donor)
+            pts = [fractional_abundance(data, carbon, float(ne[i]), float(te[i]), tcx_donor=hydrogen, tcx_donor_n=float(donor[i])) for i in range(len(x))]
+            fun = fractional_abundance(data, carbon, Interpolator1DArray(x, ne, "linear", "none", 0), Interpolator1DArray(x, te, "linear", "none", 0),
+                                       tcx_donor=hydrogen, tcx_donor_n=Interpolator1DArray(x, donor, "linear", "none", 0), free_variable=x)
+        else:
+            arr = fractional_abundance(data, carbon, ne, te)
+            pts = [fractional_abundance(data, carbon, float(ne[i]), float(te[i])) for i in range(len(x))]
+            fun = fractional_abundance(data, carbon, Interpolator1DArray(x, ne, "linear", "none", 0), Interpolator1DArray(x, te, "linear", "none", 0), free_variable=x)
+        cases += 1
+        tot = sum(np.asarray(v) for v in arr.values())
+        if sorted(arr) != list(range(7)) or not np.allclose(tot, 1.0, rtol=1e-9) or any(np.any(np.asarray(v) < -1e-12) or np.any(np.asarray(v) > 1 + 1e-12) for v in arr.values()):
+            bad.append({"trial": trial, "what": "fractions not in [0,1] / do not sum to one", "cx": bool(kw_s)})
+        for q in range(7):
+            if not np.allclose(np.asarray(arr[q]).ravel(), [float(np.asarray(p[q]).ravel()[0]) for p in pts], rtol=1e-7, atol=1e-14):
+                bad.append({"trial": trial, "what": "array input differs from scalar inputs", "charge": q, "cx": bool(kw_s)}); break
+            if not np.allclose(np.asarray(arr[q]).ravel(), np.asarray(fun[q]).ravel(), rtol=1e-7, atol=1e-14):
+                bad.append({"trial": trial, "what": "Function1D input differs from array input", "charge": q, "cx": bool(kw_s)}); break
+    # densities and neutrality matching, species dictionaries in several key orders
+    n_c = from_elementdensity(data, carbon, 6e17 * np.ones_like(ne), ne, te)
+    n_he = from_elementdensity(data, helium, 2e18 * np.ones_like(ne), ne, te)
+    frac = fractional_abundance(data, carbon, ne, te)
+    cases += 1
+    if any(not np.allclose(np.asarray(n_c[q]), np.asarray(frac[q]) * 6e17, rtol=1e-9) for q in range(7)):
+        bad.append({"trial": trial, "what": "from_elementdensity != fractions x element density"})
+    ref = None
+    for name, oc, oh in (("ascending", list(range(7)), [0, 1, 2]), ("descending", list(range(6, -1, -1)), [2, 1, 0]), ("dominant first", [4, 0, 1, 2, 3, 5, 6], [2, 0, 1])):
+        species = [{q: n_c[q] for q in oc}, {q: n_he[q] for q in oh}]
+        n_h = match_plasma_neutrality(data, hydrogen, species, ne, te)
+        cases += 1
+        given = electrons(n_c) + electrons(n_he)
+        total = given + electrons(n_h)
+        room = given < ne            # where the given species already exceed n_e the matched element is clamped to zero density
+        okn = np.allclose(total[room], ne[room], rtol=1e-7) and all(np.allclose(np.asarray(v).ravel()[~room], 0.0) for v in n_h.values())
+        if not okn or any(np.any(np.asarray(v) < 0) for v in n_h.values()):
+            bad.append({"trial": trial, "what": "neutrality not matched", "key_order_of_given_species": name, "max_rel_error": float(np.abs(total[room] / ne[room] - 1).max()) if room.any() else None})
+        bulk = np.array([np.asarray(n_h[0]).ravel(), np.asarray(n_h[1]).ravel()])
+        if ref is None: ref = bulk
+        elif not np.allclose(bulk, ref, rtol=1e-9):
+            bad.append({"trial": trial, "what": "result depends on the key order of the species dictionaries", "key_order": name})
+print(json.dumps({"cases": cases, "bad": bad[:6]}))
+''' % (ctx['seed'] + 9, n)
+    out = run_native(ctx, code, timeout=900)
+    return {'name': 'ionisation balance entry points: scalar / ndarray / Function1D agreement, normalisation, neutrality for any key order (BOUNDED stand-in, not counted as proved)',
+            'ok': bool(out) and out.get('bad') == [], 'detail': out, 'bound': '%d random rate sets x profiles of 5 points, seed %d' % (n, ctx['seed'] + 9)}
+
+
+BOUNDED = [bounded_entry_points]
